@@ -147,3 +147,9 @@ kernel('merge.B', MI.Merge(), 'B', sizes_quick=[(0, 1), (1, 1), (2, 1), (2, 2)],
 kernel('isilen.B', MI.IsiLengths(), 'B', sizes_quick=[(n,) for n in range(0, 4)], sizes_thorough=[(n,) for n in range(0, 5)], bound_text='<= 3 (quick) / 4 (thorough) spikes')
 kernel('thresh.B', MI.DefaultThresh(), 'B', sizes_quick=[(0, 1), (1, 2), (2, 2), (3,)], sizes_thorough=[(0, 1), (1, 2), (2, 2), (3,), (3, 2), (1, 1, 2)],
        bound_text='<= 2 trains with <= 3 spikes (quick); 3 trains (thorough)')
+
+import itertools as _it
+_SM_Q = [(k, mp) for k in (1, 2) for m in (3, 4) for mp in _it.product((1, 2), repeat=m)]
+_SM_T = [(k, mp) for k in (1, 2, 3) for m in (3, 4, 5) for mp in _it.product((1, 2, 3), repeat=m)]
+kernel('disc_smooth.B', F.DiscSmooth(), 'B', sizes_quick=_SM_Q, sizes_thorough=_SM_T,
+       bound_text='<= 4 entries, multiplicities in {1,2}, window k <= 2 (quick); <= 5 entries, multiplicities in {1,2,3}, k <= 3 (thorough); values symbolic')
